@@ -332,15 +332,14 @@ def run(chk):
     # ---------------------------------------------------------------------------------------------------
     # QED variants
     # ---------------------------------------------------------------------------------------------------
-    nl = T.var("nl")
     a_em = T.var("a_em")
     for n in (1, 2, 3, 4):
         for m in (0, 1, 2):
             for running in (True, False):
-                for nfc in (3, 4, 5, 6):
-                    if chk.tier == "quick" and nfc not in (4, 5):
+                for nfc, nl in ((3, 2), (4, 3), (5, 3), (6, 3), (4, 2), (5, 2)):      # the number of leptons is 2 or 3: enumerated (a symbolic nl in an nf slot would be undecidable)
+                    if chk.tier == "quick" and (nfc, nl) not in ((4, 3), (5, 3), (5, 2)):
                         continue
-                    tag = f"C21.qed[order=({n},{m}),running={running},nf={nfc}]"
+                    tag = f"C21.qed[order=({n},{m}),running={running},nf={nfc},nl={nl}]"
                     fn = "eko.scale_variations.exponentiated:gamma_variation_qed"
                     G = np.empty((n + 1, m + 1), dtype=object)
                     for i in range(n + 1):
@@ -350,6 +349,9 @@ def run(chk):
                     rp = mk_replay((n, 0), qed=True, qorder=(n, m))
                     try:
                         res = exponentiated.gamma_variation_qed(G, (n, m), nfc, nl, L, running)
+                    except T.Unsupported as e:
+                        chk.error(f"{tag}.exponentiated.no_exception", f"unsupported construct: {e}")
+                        continue
                     except Exception as e:
                         chk.fail(f"{tag}.exponentiated.no_exception", f"{type(e).__name__}: {e}", fn=fn, replay=rp)
                         continue
